@@ -4,7 +4,7 @@ import struct
 from hypothesis import strategies as st
 
 from harness import build, gen, simnet, wire, refmodel, httpref, deflateref
-from harness.runner import Prop, Enumeration, held, failed, after_every_prelude, with_noise, with_companion
+from harness.runner import Prop, Enumeration, held, failed, after_every_prelude, with_noise, with_companion, with_debug_log
 from props.c01 import effective_seg, compare_events
 
 VIOL_SENTINEL = b"<<VIOLATING-7f3a>>"
@@ -215,6 +215,8 @@ class C04(Prop):
             "companion": gen.companion(),
             # calls with unsendable arguments that the application tries (and whose error it catches) on the way
             "noise_calls": gen.noise_calls(),
+            # the application has switched on DEBUG logging for the library
+            "debug_log": gen.debug_log(),
             # connect() options that must not matter here
             "copts_noise": gen.copts_noise(("poll", "ping_rate", "ping_timeout", "close_timeout")),
             "deflate": st.sampled_from([0, 0, 1, 1, 2]),
@@ -379,7 +381,7 @@ class C04(Prop):
                                "suffix": ["text"], "seg": "whole", "deflate": 0, "client_closing": False}
         return [Enumeration("all_65536_headers_x6_contexts", self.header_cases, exhaustive=True),
                 Enumeration("violating_payload_looks_like_a_template", templates, exhaustive=True),
-                after_every_prelude(battery), with_noise(battery), with_companion(battery)]
+                after_every_prelude(battery), with_noise(battery), with_companion(battery), with_debug_log(battery)]
 
     def run_header(self, case):
         b0, b1 = case["hdr"]
